@@ -450,6 +450,11 @@ func Dump(u UTXO) (string, string) {
 		if c.Coinbase {
 			cb = 1
 		}
+		if len(c.Script) > 64 { // long scripts by length and hash: the text stays small and cheap
+			sh := sha256.Sum256(c.Script)
+			l = append(l, fmt.Sprintf("%x:%d v=%d h=%d cb=%d s=[%d bytes, sha256 %x]", op.Tx, op.Vout, c.Value, c.Height, cb, len(c.Script), sh[:12]))
+			continue
+		}
 		l = append(l, fmt.Sprintf("%x:%d v=%d h=%d cb=%d s=%x", op.Tx, op.Vout, c.Value, c.Height, cb, c.Script))
 	}
 	sort.Strings(l)
